@@ -112,29 +112,16 @@ func (c *SendCase[T]) transferTo(o selCase) bool {
 	return true
 }
 
-// per-channel real sync object, for happens-before edges of simulated rendezvous
-const maxChanSync = 64
+// per-channel real sync object, for happens-before edges of simulated
+// rendezvous. The slot is a pure function of the channel address: two channels
+// may share a mutex (edges are then over-approximated), an edge is never lost.
+const maxChanSync = 256
 
-var chanSyncKeys [maxChanSync]uintptr
 var chanSyncMu [maxChanSync]sync.Mutex
 
 //go:norace
 func chanSyncSlot(k uintptr) int {
-	free := -1
-	for i := 0; i < maxChanSync; i++ {
-		if chanSyncKeys[i] == k {
-			return i
-		}
-		if chanSyncKeys[i] == 0 && free < 0 {
-			free = i
-		}
-	}
-	if free < 0 {
-		// recycle: edges may be over-approximated, never lost
-		free = int(k>>4) % maxChanSync
-	}
-	chanSyncKeys[free] = k
-	return free
+	return int((k>>4)*2654435761>>7) & (maxChanSync - 1)
 }
 
 func touch(k uintptr) {
@@ -145,9 +132,9 @@ func touch(k uintptr) {
 }
 
 //go:norace
-func resetChanSync() {
-	for i := range chanSyncKeys {
-		chanSyncKeys[i] = 0
+func resetWaits() {
+	for i := range waits {
+		waits[i] = nil
 	}
 }
 
